@@ -7,7 +7,10 @@ CONSTANTS
   PathLen = 3
   MaxReq = 1
   SepCheck = TRUE
+  Spells = {"plain"}
+  Methods = {"GET", "HEAD"}
 INVARIANT Confined
+INVARIANT SpellingIrrelevant
 INVARIANT ServesRootFilesOnly
 INVARIANT NonInterference
 INVARIANT DesignIsSegmentwise
